@@ -308,11 +308,16 @@ PoolOf(U, dl, c) ==      \* the most specific live pool covering CIDR c ({} if n
 PoolType(pv) == IF pv.lbonly THEN "NONE" ELSE IF pv.vxlan # "never" THEN "VXLAN"
                 ELSE IF pv.ipip # "never" THEN "IPIP" ELSE "NO_ENCAP"
 CrossSubnet(pv) == pv.vxlan = "cross-subnet" \/ pv.ipip = "cross-subnet"
-\* the owner is in the local subnet: both nodes known with an IPv4 address, owner's address inside our subnet
-InLocalSubnet(U, dl, owner) ==
+\* per address family of the destination: a node's address / subnet / printed address
+NHas(v, c) == IF IsV4(c) THEN v.hasV4 ELSE v.hasV6
+NAddr(v, c) == IF IsV4(c) THEN v.addr ELSE v.addr6
+NSubnet(v, c) == IF IsV4(c) THEN v.subnet ELSE v.subnet6
+NAddrS(v, c) == IF IsV4(c) THEN v.addrs ELSE v.addrs6
+\* the owner is in the local subnet: both nodes known with an address of the destination's family, owner's address inside our subnet
+InLocalSubnet(U, dl, owner, c) ==
     /\ NodeKey(U, dl, U.local) # {} /\ NodeKey(U, dl, owner) # {}
     /\ LET me == Val(U, dl, First(NodeKey(U, dl, U.local)))  o == Val(U, dl, First(NodeKey(U, dl, owner)))
-       IN me.hasV4 /\ o.hasV4 /\ ContainsAddr(me.subnet, o.addr.a)
+       IN NHas(me, c) /\ NHas(o, c) /\ ContainsAddr(NSubnet(me, c), NAddr(o, c).a)
 
 \* requirement on the route emitted for destination CIDR c owned by node `owner` (a block, or a borrowed /32)
 RoutesAt(d, c) == { id \in DOMAIN d.routes : d.routes[id].dst = c }
@@ -328,9 +333,9 @@ RouteBad(U, dl, d, c, owner, borrowed) ==
             ELSE IF ps = {} /\ r.pool # "NONE" THEN "route-pool-type"
             \* direct vs tunnel: only meaningful when the pool encapsulates (an unencapsulated route is direct anyway)
             ELSE IF remote /\ ps # {} /\ PoolType(Val(U, dl, First(ps))) \in {"VXLAN", "IPIP"}
-                    /\ r.sameSubnet # (CrossSubnet(Val(U, dl, First(ps))) /\ InLocalSubnet(U, dl, owner)) THEN "same-subnet-flag"
-            ELSE IF remote /\ NodeKey(U, dl, owner) # {} /\ Val(U, dl, First(NodeKey(U, dl, owner))).hasV4
-                    /\ r.nodeIp # Val(U, dl, First(NodeKey(U, dl, owner))).addrs THEN "route-stale-node-address"
+                    /\ r.sameSubnet # (CrossSubnet(Val(U, dl, First(ps))) /\ InLocalSubnet(U, dl, owner, c)) THEN "same-subnet-flag"
+            ELSE IF remote /\ NodeKey(U, dl, owner) # {} /\ NHas(Val(U, dl, First(NodeKey(U, dl, owner))), c)
+                    /\ r.nodeIp # NAddrS(Val(U, dl, First(NodeKey(U, dl, owner))), c) THEN "route-stale-node-address"
             ELSE IF borrowed /\ ~r.borrowed THEN "borrowed-flag"
             ELSE ""
 
